@@ -178,6 +178,72 @@ def C_lf_term(C, t, env):
     return None
 
 
+def inc_param_roles(g):
+    """roles of the integer parameters of a counter-increment helper: 'extent' (bounds its byte loop), 'amount'
+    (the value added), 'column' (only selects where).  Decided by where the parameter's value flows: into the loop
+    test, into a stored value, or only into addresses."""
+    memo = getattr(g, "_inc_roles", None)
+    if memo is not None:
+        return memo
+    roles = {}
+    uses = g.uses()
+    headers = set(g.loops())
+    for k, p in enumerate(g.params):
+        if p["type"].endswith("*"):
+            continue
+        seen = set()
+        work = []
+        for i in g.all_insts():
+            if any(o == ["a", k] for o in i["ops"]):
+                work.append(i["id"])
+        sinks = set()
+        while work:
+            x = work.pop()
+            if x in seen:
+                continue
+            seen.add(x)
+            i = g.insts[x]
+            if i["op"] == "icmp":
+                sinks.add("test")
+                continue
+            if i["op"] == "getelementptr":
+                sinks.add("addr")
+                continue
+            if i["op"] == "store":
+                if i["ops"][0][0] == "i" and i["ops"][0][1] in seen:
+                    sinks.add("value")
+                continue
+            if i["op"] in ("zext", "sext", "trunc", "phi", "add", "sub", "shl", "lshr", "and", "or", "mul", "xor"):
+                work.extend(uses.get(x, []))
+        roles[k] = "extent" if "test" in sinks else ("amount" if "value" in sinks else ("column" if "addr" in sinks else None))
+    g._inc_roles = roles
+    return roles
+
+
+def norm_inc_args(prog, f, call, consts, block):
+    """legacy tuple of an increment call: (amount,) or (column, amount); an extent argument must be the block size
+    (then it is dropped), otherwise the raw constants are returned and will not match the expectation."""
+    g = prog.resolve(f.unit, call["callee"][1]) if call["callee"][0] == "f" else None
+    if g is None:
+        return tuple(consts)
+    roles = inc_param_roles(g)
+    col = amt = None
+    for k, c in enumerate(consts, start=1):
+        r = roles.get(k)
+        if r == "extent":
+            if c != block:
+                return tuple(consts)
+        elif r == "column":
+            col = c
+        elif r == "amount":
+            amt = c
+        else:
+            return tuple(consts)
+    if amt is None and col is None:
+        return tuple(consts)
+    return (amt,) if col is None else (col, amt)
+
+
 def counter_helper_ok(f, block):
     """increment helper: single loop, constant trip count == block, single exit on the induction variable."""
     loops = f.loops()
@@ -235,6 +301,25 @@ def counter_helper_ok(f, block):
         elif v[0] == "c":
             start = int(v[1])
     bound = c["ops"][1]
+    if step is not None and (start is None or bound[0] != "c"):
+        # the byte count is a parameter (one helper shared by ciphers of different block sizes): the loop must run
+        # from that parameter down to 0 (or from 0 up to it); every call site passes the block size (checked where
+        # the calls are: an extent argument other than BLOCK does not match the expected increments)
+        roles = inc_param_roles(f)
+        ext = [k for k, r in roles.items() if r == "extent"]
+        def is_param(op, k):
+            while op[0] == "i" and f.insts[op[1]]["op"] in ("zext", "sext", "trunc"):
+                op = f.insts[op[1]]["ops"][0]
+            return op == ["a", k]
+        sv = [v for v, pb in zip(phi["ops"], phi["inblocks"]) if pb not in body]
+        if len(ext) == 1 and sv:
+            k = ext[0]
+            down = step == -1 and is_param(sv[0], k) and bound[0] == "c" and int(bound[1]) == 0 and c["pred"] in ("ugt", "ne", "sgt")
+            up = step == 1 and sv[0][0] == "c" and int(sv[0][1]) == 0 and is_param(bound, k) and c["pred"] in ("ult", "ne", "slt")
+            nst = sum(1 for bb in body for i in f.bbmap[bb]["insts"] if i["op"] == "store")
+            if (down or up) and nst == 1:
+                return True, "one byte per iteration over exactly the `%s` bytes the caller names (the block size at every call site), exit only on the index" % f.params[k]["name"]
+        return False, "trip count is neither constant nor the helper's extent parameter"
     if start is None or step is None or bound[0] != "c":
         return False, "trip count is not constant"
     bnd = int(bound[1])
@@ -335,7 +420,7 @@ def run_config(ctx, rep, cfg):
                     fl0 = C.field(i["ops"][0]) if i["ops"] else None
                     if fl0 and fl0[0] == "counter" and len(i["ops"]) >= 2:
                         cs = [C.lf(o) for o in i["ops"][1:]]
-                        tuples.append(tuple(c[0] if c is not None and lf_is_const(c) else None for c in cs))
+                        tuples.append(norm_inc_args(prog, g, i, [c[0] if c is not None and lf_is_const(c) else None for c in cs], b.block))
                 want = [(k, k) for k in range(1, b.lanes)]
                 if sorted(tuples, key=str) == sorted(want, key=str):
                     rep.ok("C05.R4", cons + ":stagger", fsite(g), "lanes staggered by %s" % (want or "nothing (one lane)"), cfg=cn)
@@ -374,7 +459,7 @@ def run_config(ctx, rep, cfg):
             fl0 = C.field(i["ops"][0])
             if fl0 and fl0[0] == "counter":
                 cs = [C.lf(o) for o in i["ops"][1:]]
-                tuples.append(tuple(c[0] if c is not None and lf_is_const(c) else None for c in cs))
+                tuples.append(norm_inc_args(prog, ifn, i, [c[0] if c is not None and lf_is_const(c) else None for c in cs], b.block))
         want = [(k, k) for k in range(1, b.lanes)]
         init_ok = sorted(tuples, key=str) == sorted(want, key=str)
         # public init dispatching to the set_counter slot with a NULL counter
